@@ -425,6 +425,9 @@ def run_cases_sim(chk, label, consts, num, depth, timeout, workers):
     C.write_cfg(cfg, constants=consts, invariants=["Emit"])
     res = C.tlc(SPEC, "ReflectCases", cfg, rd, timeout=timeout, parse_json=False, workers=workers,
                 simulate="num=%d" % num, depth=depth, tlc_seed=C.seed())
+    m = re.search(r"number of states generated: (\d+)", res.out)
+    if m:
+        res.generated = res.distinct = int(m.group(1))     # simulation: states checked, not distinct states
     chk.add_tlc(res, "ReflectCases/" + label)
     cases = {}
     for c in C.tlc_printed_iter(res):
@@ -580,9 +583,9 @@ def strip_chan_parens(s):
 
 
 def tight_typeargs(s):
-    """llgo writes a struct literal inside the brackets of a generic instance with go/types' TypeString: no blanks
-    inside the braces, unexported field and method names without qualifier - for everything nested in that struct;
-    an interface literal that is not inside a struct literal keeps reflect's spelling"""
+    """llgo writes a struct literal or a func type inside the brackets of a generic instance with go/types' TypeString:
+    no blanks inside braces, unexported field and method names without qualifier - for everything nested in that struct
+    or func type (which extends to the end of the type argument); an interface literal elsewhere keeps reflect's spelling"""
     out = []
     for inside, text in split_typeargs(s):
         if not inside:
@@ -591,8 +594,11 @@ def tight_typeargs(s):
         res = []
         stack = []
         i = 0
+        func_mode = False
         while i < len(text):
-            in_struct = "S" in stack
+            if not func_mode and "S" not in stack and text.startswith("func(", i):
+                func_mode = True
+            in_struct = func_mode or "S" in stack
             if text.startswith("struct {}", i):
                 res.append("struct{}")
                 i += 9
@@ -612,7 +618,7 @@ def tight_typeargs(s):
                 i += 2
             else:
                 m = re.match(r"main\.([a-d] |m0\(\))", text[i:]) if in_struct else None
-                if m and res and res[-1][-1:] in ("{", " "):
+                if m and res and res[-1][-1:] in ("{", " ", "("):
                     res.append(m.group(1))
                     i += m.end()
                 else:
@@ -923,7 +929,7 @@ def check(chk):
             p.add_case(c)
         progs[nm] = p
     small = {}
-    for nm, var, mod in (("gate", "dyn", "main"), ("modpath", "none", "vmod"), ("probe", "dyn", "main")):
+    for nm, var, mod in (("gate", "dyn", "main"), ("modpath", "dyn", "vmod"), ("probe", "dyn", "main")):
         if not progs[nm].expected:
             continue
         src = progs[nm].source(var, tables=False)
